@@ -5,6 +5,10 @@
   include/xor_codes/xor_hd_code_defs.h on every run: a flipped bit in any of the 76 arrays or a
   wrong slot in the `[hd][m][k]` pointer tables changes the generated file and the kernel
   re-decides (per table, `decide +kernel` on a verified checker).
+  `equations_fixed`     the 38 slots regenerated from the header equal the committed copy
+                        `Lec.goldenXorSlots` bit for bit: a table replaced by another one — however
+                        well-formed and whatever its distance — is a change of the on-disk format
+                        (stripes written before would decode to other bytes);
   `tables_wellformed`   both sides of every slot non-NULL; m parity masks below 2^k, k data masks
                         below 2^m; data-side and parity-side tables describe the same bipartite
                         graph;
@@ -27,8 +31,12 @@
 import LecProofs.XorTablesOK
 import LecProofs.XorContracts
 import LecGen
+import LecProofs.XorGolden
 namespace LecProps.C05
 open Lec
+
+/-- the equations are the fixed ones. -/
+theorem equations_fixed : LecGen.xorSlots = goldenXorSlots := rfl
 
 theorem tables_wellformed :
     (∀ s ∈ LecGen.xorSlots, s.2.2.2.1.isSome = true ∧ s.2.2.2.2.isSome = true) ∧
@@ -71,6 +79,7 @@ theorem tolerance_fits : ∀ T ∈ LecGen.xorTables, 1 ≤ T.hd ∧ T.hd - 1 ≤
 /-- non-vacuity: the hand-made (10,5,3) table is among the generated ones. -/
 example : (LecGen.xorTableFor 3 5 10).map (·.parityBms) = some [163, 300, 337, 582, 664] := by decide
 
+#print axioms equations_fixed
 #print axioms tables_wellformed
 #print axioms whitelist
 #print axioms parity_is_xor
